@@ -46,3 +46,14 @@ pub fn drive<F: Future>(fut: F) -> Run<F::Output> {
         Err(p) => Run::Panic(panic_text(p)),
     }
 }
+
+impl<E> Run<Result<(), E>> {
+    /// `Ok(())` shown as `Ok("written")` in traces.
+    pub fn map_unit(self) -> Run<Result<&'static str, E>> {
+        match self {
+            Run::Done(r) => Run::Done(r.map(|_| "written")),
+            Run::Pending => Run::Pending,
+            Run::Panic(p) => Run::Panic(p),
+        }
+    }
+}
